@@ -25,7 +25,7 @@ Values == <<
   <<Q>> \o Chars("a]") \o <<Q>>,
   Chars("true"),
   Chars("[]"),
-  Chars("-0.5e1"),
+  Chars("-0.5e0"),
   Chars("null"),
   <<Q, "\\", Q, Q>>
 >>
@@ -92,9 +92,21 @@ Setup ==
   /\ scan' = ScanAll(Readable(stream', fault'))
   /\ UNCHANGED <<cuts, svars>>
 
+Keep3 == UNCHANGED <<params, ph, comp>>
+McReadCall       == ph = "run" /\ ReadCall /\ Keep3
+McReadReturn     == ph = "run" /\ (\E k \in 1..(Limit - delivered) : ReadReturn(k)) /\ Keep3
+McReadEnd        == ph = "run" /\ ReadEnd /\ Keep3
+McDecodeValue    == ph = "run" /\ DecodeValue /\ Keep3
+McProcessValue   == ph = "run" /\ ProcessValue /\ Keep3
+McStopJsonError  == ph = "run" /\ StopJsonError /\ Keep3
+McStopEndOfInput == ph = "run" /\ StopEndOfInput /\ Keep3
+McStopSwallow    == ph = "run" /\ StopSwallow /\ Keep3
+
+\* = Setup \/ (ph = "run" /\ StreamNext /\ UNCHANGED <<ph, comp>>), one disjunct per action for the coverage report
 Next ==
   \/ Setup
-  \/ ph = "run" /\ StreamNext /\ UNCHANGED <<ph, comp>>
+  \/ McReadCall \/ McReadReturn \/ McReadEnd \/ McDecodeValue \/ McProcessValue
+  \/ McStopJsonError \/ McStopEndOfInput \/ McStopSwallow
 
 Running == ph = "run"
 Fresh == Running /\ StartState
